@@ -62,8 +62,11 @@ type Case struct {
 	PriorNSel uint8      `json:"prior_nsel"`
 	// ViaIncr > 0: the prior selectors are reached by that many incrementing
 	// writes (wrapping past 63) instead of a plain selector write.
-	ViaIncr int        `json:"via_incr,omitempty"`
-	Dest    string     `json:"dest"` // renderer encoder recorder
+	ViaIncr int    `json:"via_incr,omitempty"`
+	Dest    string `json:"dest"` // renderer encoder recorder
+	// Jobs > 1: the same Generator and destination are Reset and the same
+	// helper call is made again (a second graphic with the same gradient).
+	Jobs    int        `json:"jobs,omitempty"`
 	ViewBox [4]ops.F32 `json:"viewbox"`
 	Rect    [4]int     `json:"rect"`
 }
@@ -166,6 +169,24 @@ func checkHelper(c Case) error {
 	hook := &ops.Recorder{Inner: inner}
 	var g generate.Generator
 	g.SetDestination(hook)
+	jobs := c.Jobs
+	if jobs < 1 {
+		jobs = 1
+	}
+	for job := 0; job < jobs; job++ {
+		if err := oneJob(c, &g, hook, enc, rr, vb, rect, n); err != nil {
+			if v, ok := err.(*harness.Violation); ok && job > 0 {
+				v.Msg = fmt.Sprintf("job %d on the same Generator: %s", job+1, v.Msg)
+			}
+			return err
+		}
+	}
+	return nil
+}
+
+func oneJob(c Case, gp *generate.Generator, hook *ops.Recorder, enc *encode.Encoder, rr *rast.Recorder, vb [4]float32, rect image.Rectangle, n int) error {
+	g := *gp
+	defer func() { *gp = g }()
 	g.Reset(gen.VB(vb), ivg.DefaultPalette)
 	prior(&g, c)
 	before := len(hook.Ops)
@@ -477,6 +498,10 @@ func genCase(t *rapid.T) (Case, []string) {
 	x0, y0 := rapid.IntRange(-64, 64).Draw(t, "vx"), rapid.IntRange(-64, 64).Draw(t, "vy")
 	c.ViewBox = [4]ops.F32{ops.F32(x0), ops.F32(y0), ops.F32(x0 + w), ops.F32(y0 + h)}
 	c.Rect = [4]int{rapid.IntRange(0, 9).Draw(t, "rx"), rapid.IntRange(0, 9).Draw(t, "ry"), w << uint(rapid.IntRange(0, 3).Draw(t, "kx")), h << uint(rapid.IntRange(0, 3).Draw(t, "ky"))}
+	if rapid.IntRange(0, 3).Draw(t, "jobs") == 0 {
+		c.Jobs = 2
+		labels = append(labels, "same-helper-call-again-after-Reset")
+	}
 	labels = append(labels, "kind="+c.Kind, "dest="+c.Dest, fmt.Sprintf("stops=%s", stopBucket(n)))
 	switch {
 	case n > 58:
